@@ -18,31 +18,24 @@ theorem lambdaTot_of_floor {lam κ : ℝ} (h : (1 / 10000 : ℝ) ≤ lam * (1 - 
   · linarith
   · rfl
 
-/-- **the rescaling**: above the floor and for `lambda ≠ 0` (the point where the code's
-    `dd·lambda/lambda` is `0/0`, named explicitly), the displaced prediction is
+/-- **the rescaling**: above the floor the displaced prediction is
     `(Ddt·λ(1−κ), Dd·(1+γ)/2, m + 5·log10(λ(1−κ)))`. -/
-theorem displace_formula (ddt dd γ lam κ m : ℝ) (hfloor : (1 / 10000 : ℝ) ≤ lam * (1 - κ))
-    (hlam : lam ≠ 0) :
+theorem displace_formula (ddt dd γ lam κ m : ℝ) (hfloor : (1 / 10000 : ℝ) ≤ lam * (1 - κ)) :
     displace ddt dd γ lam κ m =
       (ddt * (lam * (1 - κ)), dd * (1 + γ) / 2, m + 5 * Real.logb 10 (lam * (1 - κ))) := by
   simp only [displace, displacePPN, displaceMST, lambdaTot_of_floor hfloor, lit_one, lit_two, lit_five]
-  refine Prod.ext rfl (Prod.ext ?_ rfl)
-  simp only
-  field_simp
+  rfl
 
 /-- **neutral values** `λ = 1, κ = 0, γ = 1` leave the prediction unchanged -/
 theorem neutral (ddt dd m : ℝ) : displace ddt dd 1 1 0 m = (ddt, dd, m) := by
-  rw [displace_formula ddt dd 1 1 0 m (by norm_num) one_ne_zero]
+  rw [displace_formula ddt dd 1 1 0 m (by norm_num)]
   norm_num
 
 /-- **PPN and MST commute** -/
-theorem ppn_mst_commute (ddt dd γ lam κ m : ℝ) (hlam : lam ≠ 0) :
+theorem ppn_mst_commute (ddt dd γ lam κ m : ℝ) :
     (let p := displacePPN ddt dd γ; displaceMST p.1 p.2 lam κ m) =
     (let q := displaceMST ddt dd lam κ m; let p := displacePPN q.1 q.2.1 γ; (p.1, p.2, q.2.2)) := by
   simp only [displacePPN, displaceMST, lit_one, lit_two]
-  refine Prod.ext rfl (Prod.ext ?_ rfl)
-  simp only
-  field_simp
 
 /-- **λ and κ commute and compose**: applying `(λ, 0)` then `(1, κ)`, or `(1, κ)` then `(λ, 0)`, or
     `(λ, κ)` at once gives the same prediction (each above the floor). -/
@@ -62,21 +55,19 @@ theorem lambda_kappa_commute (ddt dd lam κ m : ℝ) (h1 : (1 / 10000 : ℝ) ≤
     Real.logb_mul hl (ne_of_gt hkpos)
   constructor
   · simp only [displaceMST, e1, e2, e3, lit_five]
-    refine Prod.ext (by simp only; ring) (Prod.ext (by simp only; field_simp) ?_)
+    refine Prod.ext (by simp only; ring) (Prod.ext rfl ?_)
     show m + 5 * Trans.log10 lam + 5 * Trans.log10 (1 - κ) = m + 5 * Trans.log10 (lam * (1 - κ))
     simp only [Trans.log10, hlog]; ring
   · simp only [displaceMST, e1, e2, e3, lit_five]
-    refine Prod.ext (by simp only; ring) (Prod.ext (by simp only; field_simp) ?_)
+    refine Prod.ext (by simp only; ring) (Prod.ext rfl ?_)
     show m + 5 * Trans.log10 (1 - κ) + 5 * Trans.log10 lam = m + 5 * Trans.log10 (lam * (1 - κ))
     simp only [Trans.log10, hlog]; ring
 
 /-- **MST–κ degeneracy**: `(λ, κ)` and `(λ(1−κ), 0)` displace the prediction identically. -/
-theorem mst_kappa_degenerate (ddt dd γ lam κ m : ℝ) (hfloor : (1 / 10000 : ℝ) ≤ lam * (1 - κ))
-    (hlam : lam ≠ 0) :
+theorem mst_kappa_degenerate (ddt dd γ lam κ m : ℝ) (hfloor : (1 / 10000 : ℝ) ≤ lam * (1 - κ)) :
     displace ddt dd γ lam κ m = displace ddt dd γ (lam * (1 - κ)) 0 m := by
-  have hne : lam * (1 - κ) ≠ 0 := by intro h; rw [h] at hfloor; norm_num at hfloor
-  rw [displace_formula _ _ _ _ _ _ hfloor hlam,
-    displace_formula _ _ _ (lam * (1 - κ)) 0 _ (by simpa using hfloor) hne]
+  rw [displace_formula _ _ _ _ _ _ hfloor,
+    displace_formula _ _ _ (lam * (1 - κ)) 0 _ (by simpa using hfloor)]
   simp
 
 /-! ### B. the generated dispatch table -/
@@ -130,8 +121,7 @@ structure Sharp (cfg : LensCfg ℝ) (hy : Hyper ℝ) : Prop where
 theorem lens_eq_data {cfg : LensCfg ℝ} {hy : Hyper ℝ} {ddt dd dLum : ℝ} {beta : Option ℝ}
     {ext : Ext ℝ} {fuel : ℕ} {s s' : St ℝ} {out : SingleOut ℝ} (hs : Sharp cfg hy)
     (h : singlePre mkR cfg hy ddt dd dLum beta ext fuel s = .ok (out, s'))
-    (hfloor : (1 / 10000 : ℝ) ≤ lambdaLens cfg.dist hy.lens * (1 - kappaSharp cfg.los hy.los))
-    (hlam : lambdaLens cfg.dist hy.lens ≠ 0) :
+    (hfloor : (1 / 10000 : ℝ) ≤ lambdaLens cfg.dist hy.lens * (1 - kappaSharp cfg.los hy.los)) :
     let lam := lambdaLens cfg.dist hy.lens
     let κ := kappaSharp cfg.los hy.los
     let γ := getD hy.lens "gamma_ppn" 1.0
@@ -148,7 +138,7 @@ theorem lens_eq_data {cfg : LensCfg ℝ} {hy : Hyper ℝ} {ddt dd dLum : ℝ} {b
   have e2 : κ = kappaSharp cfg.los hy.los := KappaOK_sharp hk hs.losInd hs.los
   subst e1 e2
   rw [hs.src, mkR_zero] at hvals
-  simp only [displace_formula _ _ _ _ _ _ hfloor hlam] at hvals
+  simp only [displace_formula _ _ _ _ _ _ hfloor] at hvals
   rw [hvals]
   simp [List.lookup, hprior]
 
